@@ -22,7 +22,7 @@ func c03Types() []space.Leaf {
 		switch l.Name {
 		case "string", "integer", "number", "boolean", "null", "string-date", "string-time", "string-datetime", "string-ipv4", "string-ipv6",
 			"enum-str-typed", "enum-int-typed", "enum-num-typed", "enum-bool-typed", "array-str", "array-array", "array-obj", "object", "object-empty", "map-str", "map-obj", "map-int", "map-int-required", "map-ref-obj", "map-ref-str", "map-enum-untyped",
-			"integer-minmax", "object-addl-typed", "object-addl-str", "array-3d", "array-nullable-items", "array-null-items", "array-null-items-lim", "array-int-lim", "array-str-lim":
+			"integer-minmax", "object-addl-typed", "object-addl-str", "object-addl-ref", "array-3d", "array-nullable-items", "array-null-items", "array-null-items-lim", "array-int-lim", "array-str-lim":
 			ls = append(ls, l)
 		}
 	}
